@@ -185,6 +185,8 @@ struct WorldSI : World, Net {
     daemon = plan->knobs.gets("daemon", "smtpd");
     errs = k->new_sink("stderr");
     k->put_exec(t.home + "/bin/qmail-smtpd", "qmail-smtpd", 0755);
+    k->put_exec(t.home + "/bin/qmail-qmtpd", "qmail-qmtpd", 0755);
+    k->put_exec(t.home + "/bin/qmail-qmqpd", "qmail-qmqpd", 0755);
     k->put_exec(t.home + "/bin/qmail-queue", "qmail-queue", 04711, t.uids["qmailq"], t.gid_qmail);
     k->put_exec(t.home + "/bin/qmail-newmrh", "qmail-newmrh", 0700);
     k->put_exec(t.home + "/bin/qq-stub", "stub:qq", 0755);
@@ -267,7 +269,8 @@ struct WorldSI : World, Net {
     std::vector<std::string> env = {"PATH=" + t.home + "/bin"};
     for (auto &p : plan->knobs["env"].o) env.push_back(p.first + "=" + p.second.str());
     if (use_stub) env.push_back("QMAILQUEUE=" + t.home + "/bin/qq-stub");
-    daemon_pid = k->spawn(k->cp(), t.home + "/bin/qmail-smtpd", {"qmail-smtpd"}, env, {{0, k->of_pipe_r(c2s)}, {1, k->of_pipe_w(s2c)}, {2, k->of_sink(errs)}}, t.uids["qmaild"], t.gid_nofiles, "/");
+    std::string dbin = daemon == "smtpd" ? "qmail-smtpd" : "qmail-" + daemon;
+    daemon_pid = k->spawn(k->cp(), t.home + "/bin/" + dbin, {dbin}, env, {{0, k->of_pipe_r(c2s)}, {1, k->of_pipe_w(s2c)}, {2, k->of_sink(errs)}}, t.uids["qmaild"], t.gid_nofiles, "/");
     int cp = k->spawn_native(k->cp(), "client", [this](int, char **) { return client_main(); }, {{0, k->of_pipe_r(s2c)}, {1, k->of_pipe_w(c2s)}}, 1, 1, "/");
     k->block([this, cp] { Proc *a = k->find_proc(daemon_pid), *b = k->find_proc(cp); return (!a || a->st != Proc::LIVE) && (!b || b->st != Proc::LIVE); }, k->clock + 400000, false, true);
     // let a queue child that outlived the daemon finish
@@ -298,6 +301,7 @@ struct WorldSI : World, Net {
   }
 
   void finish() override {
+    if (!c05 && !c07 && !c08) { res->nontrivial = !rx.empty() || !tx.empty(); if (!daemon_done) violate("C20.server-hung", daemon + " still running after the client went away"); Hash64 h9; h9.str(rx); res->state_hash = h9.get(); return; }
     if (daemon_fault) return;   // faults inside the daemon: only memory safety and "no partial message" (below) are judged elsewhere
     ModelOut M; model_smtp(cf, tx, stalls, use_stub ? qq_code : 0, qq_text, M);
     bool garbled = false; std::vector<int> got = parse_codes(rx, garbled);
